@@ -9,7 +9,7 @@
    generic class nested in a D statement (as FROM source, IN operand, set operand) renders exactly as the same SELECT built with D; and the
    rendering of a neutral statement is ONE text function of the class's quote character. *)
 From PT Require Import Base.Str Model.Types Model.Value Model.Interval Model.Syntax Gen.Ctx Gen.Enums Gen.Prec Gen.Placeholders Model.Render
-     Ref.Lexer Ref.Dialect.
+     Ref.Lexer Ref.Dialect Proofs.QueryEq Proofs.ClauseOrder Proofs.ClassFree.
 Open Scope N_scope.
 
 (* the conventions a context carries *)
@@ -76,6 +76,29 @@ Theorem C08_neutral_is_a_function_of_the_quote : forall cls tn un c1 c2 c3 c4,
   render (ctx_of cls) None (TQuery (neutral cls tn un c1 c2 c3 c4)) = Ok (neutral_text (quote_char (ctx_of cls)) tn un c1 c2 c3 c4, None).
 Proof. intros. destruct cls; norm; reflexivity. Qed.
 Print Assumptions C08_neutral_is_a_function_of_the_quote.
+
+(* which builder class built a SELECT does not matter to its text - for EVERY statement of the model that uses none of the class-specific
+   features (row limit, TOP, MySQL modifiers, DISTINCT ON, upsert, RETURNING; class_free), every context and parameterizer state: the quote
+   characters, placeholder style, literal forms, set-operand wrapping and GROUP BY alias policy all come from the CONTEXT it is rendered in.
+   (SQL Server / Oracle builders switch the GROUP BY alias policy off themselves: for them the statement holds where it already is off, as it
+   is everywhere inside a statement of those classes.)  Applied at every nesting level, this is "parts built with the generic classes follow
+   the dialect of the statement they are nested in". *)
+Theorem C08_builder_class_irrelevant : forall (D D' : bcls) (q : query) (c : ctx) (p : pz),
+  class_free q = true ->
+  (adjusts D || adjusts D' = true -> groupby_alias c = false) ->
+  render_query c p (with_cls D q) = render_query c p (with_cls D' q).
+Proof. exact builder_class_irrelevant. Qed.
+Print Assumptions C08_builder_class_irrelevant.
+
+Example C08_class_free_nonvacuous :
+  let t := MkTRef true (L "t") [] None 0 in
+  let q := MkQ BGeneric (MkFl None false false true false false false false false false false false false true [] [] None WPlain)
+             (TCons (TTable t NoT NoT) TNil) WNil (TCons (TField (L "a") (Some t) (Some (L "x"))) TNil) TNil TNil TNil RNil
+             (SomeT (TBasic (CEq Eq) (TField (L "b") (Some t) None) (TVal WPlain (VStr (L "v")) (L "v1") None true) None))
+             NoT NoT (GCons (TField (L "a") (Some t) (Some (L "x"))) (SomeT (TField (L "a") (Some t) (Some (L "x")))) GNil) ONil JNil NoT NoT UNil NoT NoT TNil CUNil NoT NoT TNil TNil in
+  class_free q = true /\
+  render_query (ctx_of BMySQL) None (with_cls BPostgreSQL q) = Ok (L "SELECT DISTINCT `a` `x` FROM `t` WHERE `b`='v' GROUP BY `x`", None).
+Proof. vm_compute. split; reflexivity. Qed.
 
 Example C08_cross_nonvacuous :
   cross_ok MYSQL (L "SELECT `t`.`a` FROM `t` WHERE `t`.`b`=%s UNION SELECT `u`.`a` FROM `u`") POSTGRESQL
